@@ -10,8 +10,13 @@ FILENAMES = ["<sim>", "<string>", "mod.py", "/tmp/pkg/mé.py", "中.py", "a\udc8
 ZOO_EXPR_WRAP = ["%s", "(%s, 1)", "frozenset([%s])", "(frozenset([%s, 2]), 'z')", "frozenset([(%s,), 3])", "((%s,),)"]
 
 
+HUGE = [False]  # set per run: the ambient int<->str digit limit was raised, so ints beyond 4300 digits are legal input
+
+
 def zoo_expr(rng):
     """Eval-able expression text for a constant to graft by hand (may nest frozensets)."""
+    if HUGE[0] and rng.chance(0.25):
+        return rng.choice(["10**%d", "-(10**%d)", "(10**%d, 1)", "3**%d"]) % rng.choice([4400, 5000, 5900, 7000, 12000])
     base = workload.const_src(rng, 2)
     w = rng.choice(ZOO_EXPR_WRAP)
     if "frozenset" in w and ("{" in base):
@@ -21,8 +26,8 @@ def zoo_expr(rng):
 
 def swarm_c12(rng, tier):
     fault_free = rng.chance(0.2)
-    kinds = ["scribble", "wipe", "alias", "abort", "preempt", "abort_sweep"]
-    enabled = [] if fault_free else [k for k in kinds if rng.chance(0.6 if k != "abort_sweep" else (0.15 if tier == "quick" else 0.4))]
+    kinds = ["scribble", "wipe", "alias", "abort", "preempt", "abort_sweep", "virgin"]
+    enabled = [] if fault_free else [k for k in kinds if rng.chance({"abort_sweep": 0.15 if tier == "quick" else 0.4, "virgin": 0.3}.get(k, 0.6))]
     if not fault_free and not enabled:
         enabled = [rng.choice(kinds)]
     cfg = {
@@ -39,6 +44,7 @@ def swarm_c12(rng, tier):
             "compile": rng.choice([0, 1, 2]),
         },
         "ref_rate": rng.choice([0.0, 0.05, 0.15, 0.3]),
+        "ambient_digits": rng.choice([None, None, None, 0, 6000, 20000]),
         "variants": rng.chance(0.3),
         "threads": rng.choice([2, 2, 3]),
         "p_switch": rng.choice([0.002, 0.01, 0.03, 0.08, 0.2]),
@@ -149,6 +155,19 @@ def gen_fault(w, rng, cfg):
         if exc == "RecursionError":
             op["headroom"] = rng.randint(5, 40)
         return op
+    if k == "virgin":
+        cands = []
+        for name in API_OPS:
+            for s in w.live(API_INPUT_KIND[name]):
+                if s.meta.get("w", 0) <= 400:
+                    cands.append((name, s.id))
+        if not cands:
+            return None
+        name, sid = rng.choice(cands)
+        if rng.chance(0.6):
+            return {"op": "virgin", "how": "abort", "call": {"op": name, "in": [sid]}, "trials": rng.randint(2, 5),
+                    "exc": rng.choice(["KeyboardInterrupt", "SimAbort", "MemoryError"])}
+        return {"op": "virgin", "how": "preempt", "call": {"op": name, "in": [sid]}, "p": rng.choice([0.02, 0.1, 0.3]), "first": rng.randint(0, 1)}
     if k == "abort_sweep":
         # crash-point enumeration on a SMALL call: every line (thorough) or every 5th..9th line (quick)
         cands = []
@@ -247,29 +266,41 @@ def run_c12(seed, tree, tier, known):
     rng = prng.PRNG(seed)
     cfg = swarm_c12(rng, tier)
     w = World(tree, known, tier)
-    gen_seed_pool(w, rng, cfg, tree, tier)
-    steps = 0
-    while steps < cfg["length"] and not w.stop:
-        steps += 1
-        op = gen_step(w, rng, cfg, tree, tier)
-        w.execute(op, rng)
-        evict_if_needed(w, rng, cfg)
-    if not w.stop:
-        w._cur_inputs = set()
-        w.check_all_unchanged("end-of-run")
+    HUGE[0] = False
+    try:
+        if cfg.get("ambient_digits") is not None and hasattr(sys, "set_int_max_str_digits"):
+            w.execute({"op": "ambient", "int_max_str_digits": cfg["ambient_digits"]}, rng)
+            HUGE[0] = True
+            cfg["w"]["graft"] = max(cfg["w"]["graft"], 2)
+        gen_seed_pool(w, rng, cfg, tree, tier)
+        steps = 0
+        while steps < cfg["length"] and not w.stop:
+            steps += 1
+            op = gen_step(w, rng, cfg, tree, tier)
+            w.execute(op, rng)
+            evict_if_needed(w, rng, cfg)
+        if not w.stop:
+            w._cur_inputs = set()
+            w.check_all_unchanged("end-of-run")
+    finally:
+        HUGE[0] = False
+        w.restore_ambient()
     return w, cfg
 
 
 def replay_ops(prop, ops, tree, tier, known):
     """Literal replay of a recorded op list (no PRNG)."""
     w = make_world(prop, tree, known, tier)
-    for op in ops:
-        if op.get("skipped"):
-            continue
-        op2 = {k: v for k, v in op.items() if k not in ("skipped",)}
-        w.execute(op2, None)
-        if w.stop:
-            break
+    try:
+        for op in ops:
+            if op.get("skipped"):
+                continue
+            op2 = {k: v for k, v in op.items() if k not in ("skipped",)}
+            w.execute(op2, None)
+            if w.stop:
+                break
+    finally:
+        w.restore_ambient()
     if not w.stop and prop == "C12":
         w._cur_inputs = set()
         w.check_all_unchanged("end-of-run")
